@@ -19,7 +19,7 @@ func init() {
 				"(largest) among competing proposals the winner replaces the current leader only on strictly larger voted power; (effect) stop(), SetNewCommissions and AddVersion are dominated by the respective decision; (votes) the three vote handlers reject past heights (`data.Height < currentBlock`), duplicate votes (IsVoteExists/IsHaltExists on the same height and key) and non-owners, and the vote they record is what the duplicate test reads. " +
 				"NOT decided: that validatorsPowers/totalPower hold the present validators' stakes (C17/C19), big.Int arithmetic itself.",
 			Assumptions: stdAssumptions,
-			Rules:       []string{"C20.exact", "C20.largest", "C20.effect", "C20.votes", "C20.powers"},
+			Rules:       []string{"C20.exact", "C20.largest", "C20.effect", "C20.votes", "C20.powers", "C20.presence"},
 		},
 		Run: runC20,
 	})
@@ -208,6 +208,20 @@ func checkVotingPowers(c *core.Ctx, rule string) {
 
 func runC20(c *core.Ctx) {
 	defer checkVotingPowers(c, "C20.powers")
+	defer func() {
+		// the presence map the tallies weigh votes with is the one of the block being processed
+		bt := c.Named("coreV2/minter", "Blockchain")
+		if bt == nil {
+			c.Unk("C20.presence", "minter.Blockchain", token.NoPos, "type not found")
+			return
+		}
+		if bb := c.Method(bt, "BeginBlock"); bb != nil {
+			n := checkFieldReadyBeforeRead(c, "C20.presence", bb, bt, "validatorsStatuses")
+			c.Floor("C20.presence", n, 1, "calls in BeginBlock that read the presence map")
+		} else {
+			c.Unk("C20.presence", "BeginBlock", token.NoPos, "Blockchain.BeginBlock not found")
+		}
+	}()
 	for _, t := range tallies {
 		fn := c.MustFn("C20.exact", t.name)
 		if fn == nil {
